@@ -554,7 +554,11 @@ func (g *c12Gen) target(src *c12Node, mode string) *c12Target {
 	}
 	regroup()
 	// delete
-	for k := r.Intn(3); k > 0; k-- {
+	ndel := r.Intn(3)
+	if mode == "permute" {
+		ndel = 0
+	}
+	for k := ndel; k > 0; k-- {
 		grp := groups[r.Intn(len(groups))]
 		if len(grp.fields) > 1 {
 			i := r.Intn(len(grp.fields))
@@ -565,10 +569,18 @@ func (g *c12Gen) target(src *c12Node, mode string) *c12Target {
 	}
 	// permute
 	for _, grp := range groups {
-		if r.Intn(2) == 0 && len(grp.fields) > 1 {
+		if (r.Intn(2) == 0 || mode == "permute") && len(grp.fields) > 1 {
+			before := append([]*c12Node(nil), grp.fields...)
 			r.Shuffle(len(grp.fields), func(i, j int) { grp.fields[i], grp.fields[j] = grp.fields[j], grp.fields[i] })
+			if mode == "permute" && reflect.DeepEqual(before, grp.fields) {
+				// the shuffle came out as the identity: rotate, so that the order really changes
+				grp.fields = append(grp.fields[1:len(grp.fields):len(grp.fields)], grp.fields[0])
+			}
 			t.ops = append(t.ops, "permute "+grp.name)
 		}
+	}
+	if mode == "permute" && len(t.ops) == 0 {
+		t.mode = "drop-permute" // no group with two fields: the target is the source itself
 	}
 	var allFields func(n *c12Node, f func(parent, fld *c12Node))
 	allFields = func(n *c12Node, f func(parent, fld *c12Node)) {
@@ -746,6 +758,13 @@ type c12Out struct {
 	nrows   int
 	raw     []parquet.Row     // row paths only
 	rawCols [][]parquet.Value // convert-rowgroup-chunks only: the values as served by the chunks
+	extra   []c12Extra        // further L1 failures of the path (page slices, seeks)
+}
+
+// c12Extra is an L1 failure a path found besides the comparison of its output streams.
+type c12Extra struct {
+	key, what string
+	detail    map[string]any
 }
 
 type c12Case struct {
@@ -755,6 +774,7 @@ type c12Case struct {
 	file       []byte
 	batch      int
 	tleaves    []c12Leaf
+	cuts       *rand.Rand // page slice bounds and seek positions of the column-chunk path
 }
 
 func (c *c12Case) open() (*parquet.File, error) {
@@ -853,6 +873,168 @@ func c12ChunkValues(cc parquet.ColumnChunk) (vals []parquet.Value, err error) {
 	return vals, fmt.Errorf("ReadPage does not terminate")
 }
 
+// c12SlicedChunk reads a column chunk of a converted row group again (1) through slices of its
+// pages cut at random row bounds and (2) after Pages().SeekToRow(k). Whatever the cuts, the chunk
+// must serve the values `whole` (what plain ReadPage calls gave), every value and every sliced
+// page under the target column index `ci`.
+func c12SlicedChunk(cc parquet.ColumnChunk, ci int, whole []parquet.Value, r *rand.Rand) (fails []c12Extra) {
+	fail := func(key, what string, detail map[string]any) {
+		if detail == nil {
+			detail = map[string]any{}
+		}
+		detail["target_column_index"] = ci
+		fails = append(fails, c12Extra{key, what, detail})
+	}
+	text := func(vs []parquet.Value) string {
+		var sb strings.Builder
+		for i, v := range vs {
+			if i > 0 {
+				sb.WriteString(" ")
+			}
+			fmt.Fprintf(&sb, "%+v", v)
+		}
+		return sb.String()
+	}
+	same := func(a, b []parquet.Value) bool {
+		if len(a) != len(b) {
+			return false
+		}
+		for i := range a {
+			if !parquet.DeepEqual(a[i], b[i]) || a[i].Column() != b[i].Column() ||
+				a[i].RepetitionLevel() != b[i].RepetitionLevel() || a[i].DefinitionLevel() != b[i].DefinitionLevel() {
+				return false
+			}
+		}
+		return true
+	}
+	readAll := func(p parquet.Page) ([]parquet.Value, error) {
+		var vals []parquet.Value
+		vr := p.Values()
+		buf := make([]parquet.Value, 16)
+		for guard := 0; guard < 1<<20; guard++ {
+			n, err := vr.ReadValues(buf)
+			for _, v := range buf[:n] {
+				vals = append(vals, v.Clone())
+			}
+			if err == io.EOF {
+				return vals, nil
+			}
+			if err != nil {
+				return vals, err
+			}
+			if n == 0 {
+				return vals, fmt.Errorf("ReadValues returned 0 values and no error")
+			}
+		}
+		return vals, fmt.Errorf("ReadValues does not terminate")
+	}
+	// (1) slices
+	func() {
+		pages := cc.Pages()
+		defer pages.Close()
+		var got []parquet.Value
+		var cutsText []string
+		for guard := 0; guard < 100000; guard++ {
+			p, err := pages.ReadPage()
+			if err == io.EOF {
+				break
+			}
+			if err != nil {
+				fail("converted-page-slice:read-error", "ReadPage: "+err.Error(), nil)
+				return
+			}
+			n := p.NumRows()
+			bounds := []int64{0}
+			for k := r.Intn(3); k > 0 && n > 0; k-- {
+				bounds = append(bounds, r.Int63n(n+1))
+			}
+			bounds = append(bounds, n)
+			sort.Slice(bounds, func(i, j int) bool { return bounds[i] < bounds[j] })
+			for i := 1; i < len(bounds); i++ {
+				a, b := bounds[i-1], bounds[i]
+				cutsText = append(cutsText, fmt.Sprintf("[%d,%d)", a, b))
+				q := p.Slice(a, b)
+				if q.Column() != ci {
+					fail("converted-page-slice:page-column-index", fmt.Sprintf("Slice(%d,%d) of a page of target column %d reports column %d", a, b, ci, q.Column()), nil)
+					parquet.Release(p)
+					return
+				}
+				if q.NumRows() != b-a {
+					fail("converted-page-slice:row-count", fmt.Sprintf("Slice(%d,%d) of a page of %d rows has %d rows", a, b, n, q.NumRows()), nil)
+					parquet.Release(p)
+					return
+				}
+				vs, err := readAll(q)
+				if err != nil {
+					fail("converted-page-slice:read-error", fmt.Sprintf("values of Slice(%d,%d): %v", a, b, err), nil)
+					parquet.Release(p)
+					return
+				}
+				got = append(got, vs...)
+			}
+			parquet.Release(p)
+		}
+		for _, v := range got {
+			if v.Column() != ci {
+				fail("converted-page-slice:value-column-index", fmt.Sprintf("a value read from a page slice of target column %d carries column index %d", ci, v.Column()),
+					map[string]any{"slices": cutsText, "got": text(got)})
+				return
+			}
+		}
+		if !same(got, whole) {
+			fail("converted-page-slice:values-differ", "the slices of the pages yield other values than the whole pages",
+				map[string]any{"slices": cutsText, "whole": text(whole), "sliced": text(got)})
+		}
+	}()
+	// (2) seek: the values from row k on
+	func() {
+		var starts []int // index in whole of the first value of every row
+		for i, v := range whole {
+			if v.RepetitionLevel() == 0 {
+				starts = append(starts, i)
+			}
+		}
+		if len(starts) == 0 {
+			return
+		}
+		k := r.Intn(len(starts))
+		pages := cc.Pages()
+		defer pages.Close()
+		if err := pages.SeekToRow(int64(k)); err != nil {
+			fail("converted-chunk-seek:error", fmt.Sprintf("Pages().SeekToRow(%d): %v", k, err), nil)
+			return
+		}
+		var got []parquet.Value
+		for guard := 0; guard < 100000; guard++ {
+			p, err := pages.ReadPage()
+			if err == io.EOF {
+				break
+			}
+			if err != nil {
+				fail("converted-chunk-seek:error", fmt.Sprintf("ReadPage after SeekToRow(%d): %v", k, err), nil)
+				return
+			}
+			if p.Column() != ci {
+				fail("converted-chunk-seek:page-column-index", fmt.Sprintf("after SeekToRow(%d) a page of target column %d reports column %d", k, ci, p.Column()), nil)
+				parquet.Release(p)
+				return
+			}
+			vs, err := readAll(p)
+			parquet.Release(p)
+			if err != nil {
+				fail("converted-chunk-seek:error", err.Error(), nil)
+				return
+			}
+			got = append(got, vs...)
+		}
+		if want := whole[starts[k]:]; !same(got, want) {
+			fail("converted-chunk-seek:values-differ", fmt.Sprintf("after Pages().SeekToRow(%d) the chunk does not serve the values of rows %d..", k, k),
+				map[string]any{"seek": k, "expected": text(want), "got": text(got)})
+		}
+	}()
+	return fails
+}
+
 type c12Path struct {
 	name   string
 	chunks bool // reads the converted row group through its column chunks
@@ -937,6 +1119,11 @@ var c12Paths = []c12Path{
 					out.rawCols = make([][]parquet.Value, len(c.tleaves))
 				}
 				out.rawCols[ci] = append(out.rawCols[ci], vals...)
+				// the same chunk read through slices of its pages, and after a seek: the values and
+				// their column index must not depend on how the pages are cut
+				if c.cuts != nil {
+					out.extra = append(out.extra, c12SlicedChunk(cc, ci, vals, c.cuts)...)
+				}
 			}
 		}
 		return out, nil
@@ -947,6 +1134,68 @@ var c12Paths = []c12Path{
 			return nil, err
 		}
 		rd := parquet.NewReader(f, c.tgtS)
+		defer rd.Close()
+		rows, err := c12ReadRows(rd, c.batch)
+		if err != nil {
+			return nil, err
+		}
+		return c.rowsOut(ctx, rows)
+	}},
+	{"rowgroup-reader-schema", false, 1, func(ctx *core.Ctx, c *c12Case) (*c12Out, error) {
+		f, err := c.open()
+		if err != nil {
+			return nil, err
+		}
+		var out []parquet.Row
+		for _, rg := range f.RowGroups() {
+			rd := parquet.NewRowGroupReader(rg, c.tgtS)
+			rows, err := c12ReadRows(rd, c.batch)
+			rd.Close()
+			if err != nil {
+				return nil, err
+			}
+			out = append(out, rows...)
+		}
+		return c.rowsOut(ctx, out)
+	}},
+	{"generic-reader-schema", false, 1, func(ctx *core.Ctx, c *c12Case) (*c12Out, error) {
+		f, err := c.open()
+		if err != nil {
+			return nil, err
+		}
+		rd := parquet.NewGenericReader[any](f, c.tgtS)
+		defer rd.Close()
+		rows, err := c12ReadRows(rd, c.batch)
+		if err != nil {
+			return nil, err
+		}
+		return c.rowsOut(ctx, rows)
+	}},
+	{"generic-rowgroup-reader", false, 1, func(ctx *core.Ctx, c *c12Case) (*c12Out, error) {
+		f, err := c.open()
+		if err != nil {
+			return nil, err
+		}
+		var out []parquet.Row
+		for _, rg := range f.RowGroups() {
+			rd := parquet.NewGenericRowGroupReader[any](rg, c.tgtS)
+			rows, err := c12ReadRows(rd, c.batch)
+			rd.Close()
+			if err != nil {
+				return nil, err
+			}
+			out = append(out, rows...)
+		}
+		return c.rowsOut(ctx, out)
+	}},
+	{"generic-rowgroup-reader-buffer", false, 1, func(ctx *core.Ctx, c *c12Case) (*c12Out, error) {
+		b := parquet.NewBuffer(c.srcS)
+		for _, row := range c.rows {
+			if _, err := b.WriteRows([]parquet.Row{row.Clone()}); err != nil {
+				return nil, err
+			}
+		}
+		rd := parquet.NewGenericRowGroupReader[any](b, c.tgtS)
 		defer rd.Close()
 		rows, err := c12ReadRows(rd, c.batch)
 		if err != nil {
@@ -1295,6 +1544,8 @@ func c12Worker(args []string) int {
 
 func c12Mode(r *rand.Rand) string {
 	switch x := r.Intn(100); {
+	case x < 8:
+		return "permute" // the target declares exactly the source fields, in another order
 	case x < 35:
 		return "drop-permute"
 	case x < 70:
@@ -1345,6 +1596,7 @@ func c12RandomCase(ctx *core.Ctx, d interface {
 	tgtText := sb.String()
 
 	c := &c12Case{src: src, tgt: tgt, batch: []int{1, 2, 3, 64}[r.Intn(4)], tleaves: tgt.leaves()}
+	c.cuts = rand.New(rand.NewSource(r.Int63()))
 	c.srcS = parquet.NewSchema("src", src.build())
 	c.tgtS = parquet.NewSchema("tgt", tgt.build())
 	sleaves := src.leaves()
@@ -1488,6 +1740,23 @@ func c12RandomCase(ctx *core.Ctx, d interface {
 		}
 		if p.name == "convert-rowgroup-chunks" && out != nil && err == nil {
 			chunkCols = out.rawCols
+		}
+		if out != nil {
+			for _, x := range out.extra {
+				key := x.key + ":" + tg.mode
+				ci, _ := x.detail["target_column_index"].(int)
+				if added, _, _ := c12AddedShape(src, tgt, c.tleaves[ci].path); added {
+					// a column the target adds is served by missingColumnChunk, which mirrors an
+					// adjacent column through one shared page reader: same mechanism, same family as
+					// the other failures of added columns on the column-chunk path
+					key = c12AddedKey(p, c, ci) + ":" + strings.SplitN(x.key, ":", 2)[0]
+				}
+				ctx.Fail("L1", key, "path "+p.name+", target column "+strings.Join(c.tleaves[ci].path, ".")+": "+x.what,
+					detail(map[string]any{"path": p.name, "column": strings.Join(c.tleaves[ci].path, "."), "finding": x.detail}))
+			}
+			if p.name == "convert-rowgroup-chunks" {
+				ctx.HistN("converted-chunks-reread-through-page-slices-and-seek", tg.mode, int64(len(c.tleaves)))
+			}
 		}
 		want := exp
 		wantRows := nrows
